@@ -96,8 +96,8 @@ inductive SliceKind where
   deriving Repr, DecidableEq
 
 def sliceKind : Expr → SliceKind
-  | .seq _ .tuple _ _ => .noQn
-  | .other _ "Slice" _ _ => .noQn
+  | .seq _ k _ _ => if k == .tuple then .noQn else .sub
+  | .other _ k _ _ => if k == "Slice" then .noQn else .sub
   | .const _ k r => if k == "ellipsis" then .noQn else .lit r
   | _ => .sub
 
